@@ -806,3 +806,10 @@ def d8(cx: Cx, ob: Ob) -> None:
                     witness="a mapping with one unknown name next to applicable ones: PrefixStandardizationError, nothing is applied",
                     detail=f"strict-lookup:{nm}",
                 )
+
+
+@obligation("C11-X3", "no memoised derived values (cached_property / lru_cache) on Record, Reference or Converter objects (shared with C05): remap_curie_prefixes renames deep COPIES of the records in place - a cached view on the record is copied along and describes the record under its old name, so the converter it returns is indexed under names it no longer has", floor=3)
+def x3(cx: Cx, ob: Ob) -> None:
+    from ..rules import cached_derivations
+
+    cached_derivations(cx, ob)
